@@ -411,6 +411,15 @@ func c12random(r *rand.Rand) string {
 	return strings.Join(fs, "/")
 }
 
+// top-level code consisting of a single expression statement is evaluated as an expression, not by the
+// statement executor: top-level probes start with one simple statement so that they are run by exec
+func c12top(kind, d string) string {
+	if kind == "T" {
+		return "p1," + d
+	}
+	return d
+}
+
 func c12hooks(desc string) int { return strings.Count(","+strings.ReplaceAll(desc, "/", ",")+",", ",h,") }
 
 func c12gen(r *rand.Rand, tier string, emit func(string)) {
@@ -431,7 +440,7 @@ func c12gen(r *rand.Rand, tier string, emit func(string)) {
 		for _, kind := range kinds {
 			for k := 0; k <= c12hooks(d)+1; k++ {
 				emit("reset")
-				emit(fmt.Sprintf("eval %d %s %s", k, kind, d))
+				emit(fmt.Sprintf("eval %d %s %s", k, kind, c12top(kind, d)))
 				emit("battery")
 			}
 		}
@@ -443,7 +452,7 @@ func c12gen(r *rand.Rand, tier string, emit func(string)) {
 		for j := 0; j < n; j++ {
 			d := progs[r.Intn(len(progs))]
 			kind := []string{"F", "T"}[r.Intn(2)]
-			emit(fmt.Sprintf("eval %d %s %s", r.Intn(c12hooks(d)+2), kind, d))
+			emit(fmt.Sprintf("eval %d %s %s", r.Intn(c12hooks(d)+2), kind, c12top(kind, d)))
 		}
 		emit("battery")
 	}
